@@ -181,7 +181,7 @@ TIES = {
     'C04': 'gen_prod.py (gen_get_next_is_model: every generated producer = Producers.get_next)',
     'C05': 'gen_prod.py (interval / time / group get_next and the filters)',
     'C06': 'gen_prod.py (TimeProducer.get_next, TimeReplacer.replace, find_time_after_dst_switch)',
-    'C07': 'gen_jobs.py (set_next_run, callbacks, API operations against step_op), gen_builder.py (store, controls), gen_init.py (constructors of scheduler, store, job classes, callback handler = init / new_job)',
+    'C07': 'gen_jobs.py (set_next_run, callbacks, API operations against step_op), gen_builder.py (store, controls), gen_init.py (constructors of scheduler, store, job classes, callback handler = init / new_job), gen_removeall.py (AsyncScheduler.remove_all = the derived history of SchedRemoveAll.v: gen_remove_all_is_model)',
     'C08': 'gen_jobs.py (one-shot / countdown classes: update_next, reset, set_countdown), gen_init.py (their constructors; CountdownJob.__init__ runs the generated set_countdown)',
     'C09': 'gen_sched.py (insort / run_jobs loop), gen_jobs.py (__lt__ = job_lt)',
     'C10': 'gen_sched.py (try / except of run_jobs), gen_builder.py + gen_taskmgr.py (GenAsyncSystem: generated executor on generated managers); the C10_generated_system_* theorems of the generated history machine are stated in props/C01.v',
